@@ -1,3 +1,22 @@
+/-
+  Tie of the TRANSLATED `TextHandler` methods (/repo/logger/text_handler.go, regenerated into
+  Glb/Generated/TrTextSource.lean and Glb/Generated/TrTextHandler.lean on every run) to the hand model
+  of Glb/Model/TextHandler.lean that the C13 theorems (`text_roundtrip`) are about.  The handler state
+  is the pair `(pre, gp)` = (preformatted, groupPrefix); clone/pools/lock/Write are outside the model.
+
+      Text_WithGroup_eq   : Tr.Text_WithGroup h.pre h.groupPrefix name = .ok (withGroup h name as a pair)
+      Text_WithAttrs_eq   : depthList as ≤ fuel → Tr.Text_WithAttrs fuel P h.pre h.groupPrefix as = .ok (withAttrs P h as …)
+      appendTextSource_eq : Tr.appendTextSource P buf file line
+                              = .ok (appendTextString P buf (trimSource file ++ ":" ++ itoa line))
+      Text_Handle_exact   : -2 ≤ r.level → (Tr.Text_Handle … ).map (·.1) = handle P addSource h r
+      Text_Handle_eq      : the same for ALL levels after `Except.toOption` (payload of the negative
+                            level index differs: `Text_Handle_neg` / `handle_neg`)
+
+  The `range attrs` loop (the same in `WithAttrs` and `Handle`) from index `i` in state `(i, buf)` is
+  the model's `appendAttrs P buf gp (as.drop i)`; each element by `TrTextAttr.appendTextAttr_eq`.
+  The source loop is the one of `appendJsonSource` (Tie/TrJson.lean); the Text model's `trimSource`
+  (scan over the reversed tail) equals the JSON model's (`trimSource_text_json`).
+-/
 import Glb.Go.Lemmas
 import Glb.Generated.TrTextHandler
 import Glb.Generated.TrTextSource
@@ -12,6 +31,7 @@ open Glb.Go Glb.TextHandler Glb.Tie.TrTextAttr
 
 /-! ### WithGroup -/
 
+/-- **Tie.** `WithGroup`: the new group prefix is `name`, or `groupPrefix ++ "." ++ name` -/
 theorem Text_WithGroup_eq (h : Handler) (name : Bytes) :
     Glb.Tr.Logger.Text_WithGroup h.pre h.groupPrefix name
       = .ok ((withGroup h name).pre, (withGroup h name).groupPrefix, ()) := by
@@ -53,6 +73,8 @@ macro "text_attr_loop_step" : tactic => `(tactic|
      simp [hn', this, appendAttrs]
      omega))
 
+/-- **Tie.** `WithAttrs`: `preformatted` grows by the rendering of every attribute under the group
+    prefix (nothing changes for an empty list), whenever the fuel covers the nesting depth; no panic. -/
 theorem Text_WithAttrs_eq (fuel : Nat) (P : Std) (h : Handler) (as : List Attr)
     (hf : depthList as ≤ fuel) :
     Glb.Tr.Logger.Text_WithAttrs fuel P h.pre h.groupPrefix as
@@ -152,5 +174,100 @@ theorem appendTextSource_eq (P : Std) (buf file : Bytes) (line : Int) :
   · open Glb.Tie.TrJson in source_loop_step
   · refine ⟨?_, ?_⟩ <;> (try simp) <;> omega
   · simp; omega
+
+/-! ### Handle
+
+Payload convention (as in Tie/TrLevel.lean): for `r.level < -2` both sides panic in the level-table
+lookup `labelList[l+2]`, but the payload names differ (translated `idxI`: `.other "index<0"`, model
+`TextHandler.fullLevel`: `.indexRange 0 len`), see `Text_Handle_neg` / `handle_neg`.  So:
+  * `Text_Handle_exact` : exact equality (out-of-range panic for `17 < level` included) under `-2 ≤ r.level`;
+  * `Text_Handle_eq`    : for ALL levels, equality after `Except.toOption`.
+`r.line` is the decimal text of the frame's line number (`hline`), the translated function gets the
+number itself.  The buffer starts empty (`newBuffer()`); the result is the byte string passed to the
+single `out.Write`. -/
+
+/-- **Tie.** `Handle` (exact, `-2 ≤ level`): the bytes written, or the out-of-range panic of the level
+    table for `17 < level`, are the model's `handle`. -/
+theorem Text_Handle_exact (fuel : Nat) (P : Std) (addSource : Bool) (h : Handler) (r : Record)
+    (lineNo : Int) (hline : r.line = Glb.Go.Lib.itoa lineNo) (hf : depthList r.attrs ≤ fuel)
+    (hl : -2 ≤ r.level) :
+    (Glb.Tr.Logger.Text_Handle fuel P [] addSource h.pre h.groupPrefix r.time r.level r.file lineNo
+        r.msg r.attrs).map (·.1) = handle P addSource h r := by
+  obtain ⟨time, level, file, line, msg, as⟩ := r
+  dsimp only at hline hf hl
+  subst hline
+  unfold Glb.Tr.Logger.Text_Handle handle
+  dsimp only
+  rw [Glb.Tie.TrLevel.appendFullLevel_text_exact _ _ hl]
+  cases hfl : fullLevel level with
+  | error e => simp [Except.map, bind, Except.bind]
+  | ok lab =>
+    have hch : ∀ c ∈ as, depth c ≤ fuel := fun c hc => Nat.le_trans (depth_mem as c hc) hf
+    have hp' : ((h.pre.length : Int) > 0) = (h.pre.length > 0) := by simp
+    have has' : ((as.length : Int) > 0) = (as.length > 0) := by simp
+    cases addSource <;> by_cases hp : h.pre.length > 0 <;> by_cases has : as.length > 0 <;>
+      simp only [hp', has', hp, has, decide_true, decide_false, if_true, if_false, Bool.false_eq_true,
+        Except.map, bind, Except.bind, pure, Except.pure, appendTextSource_eq,
+        Glb.Tie.TrText.appendTextString_eq, len_eq, sourceText]
+    all_goals
+      rw [loop_eq (σ := Int × Bytes) (ρ := Bytes × Unit)
+        (Inv := fun st => 0 ≤ st.1 ∧ st.1 ≤ as.length)
+        (measure := fun st => ((as.length : Int) - st.1).toNat)
+        (model := fun st => .ok (.inl ((as.length : Int),
+          appendAttrs P st.2 h.groupPrefix (as.drop st.1.toNat))))]
+      · simp
+      · text_attr_loop_step
+      · simp
+      · simp; omega
+
+/-- the translated level lookup with a negative index `l + 2` -/
+theorem appendFullLevel_neg (buf : Bytes) (l : Int) (h : l < -2) :
+    Glb.Tr.Logger.appendFullLevel buf l false = .error (.other "index<0") := by
+  unfold Glb.Tr.Logger.appendFullLevel
+  simp only [idx_int, Bool.false_eq_true, if_false, bind_assoc, pure_bind]
+  rw [idxI_neg _ _ (by omega)]
+  rfl
+
+/-- **Tie.** `Handle` (all levels): ok-results agree and one side panics iff the other does
+    (equality after `Except.toOption`). -/
+theorem Text_Handle_eq (fuel : Nat) (P : Std) (addSource : Bool) (h : Handler) (r : Record)
+    (lineNo : Int) (hline : r.line = Glb.Go.Lib.itoa lineNo) (hf : depthList r.attrs ≤ fuel) :
+    ((Glb.Tr.Logger.Text_Handle fuel P [] addSource h.pre h.groupPrefix r.time r.level r.file lineNo
+        r.msg r.attrs).map (·.1)).toOption = (handle P addSource h r).toOption := by
+  by_cases hl : -2 ≤ r.level
+  · rw [Text_Handle_exact fuel P addSource h r lineNo hline hf hl]
+  · have hneg : r.level + 2 < 0 := by omega
+    have hm : (handle P addSource h r).toOption = none := by
+      unfold handle fullLevel
+      simp [hneg, bind, Except.bind, Except.toOption]
+    rw [hm]
+    unfold Glb.Tr.Logger.Text_Handle
+    dsimp only
+    simp only [appendFullLevel_neg _ _ (show r.level < -2 by omega)]
+    simp [Except.map, Except.toOption, bind, Except.bind]
+
+/-- for `level < -2` the translated code panics with the translator's negative-index payload … -/
+theorem Text_Handle_neg (fuel : Nat) (P : Std) (addSource : Bool) (pre gp time : Bytes) (level : Int)
+    (file : Bytes) (lineNo : Int) (msg : Bytes) (as : List Attr) (hl : level < -2) :
+    Glb.Tr.Logger.Text_Handle fuel P [] addSource pre gp time level file lineNo msg as
+      = .error (.other "index<0") := by
+  unfold Glb.Tr.Logger.Text_Handle
+  dsimp only
+  simp only [appendFullLevel_neg _ _ hl]
+  rfl
+
+/-- … and the model with its own (`.indexRange 0 len`): the reason `Text_Handle_exact` needs `-2 ≤ level` -/
+theorem handle_neg (P : Std) (addSource : Bool) (h : Handler) (r : Record) (hl : r.level < -2) :
+    handle P addSource h r = .error (.indexRange 0 Glb.Generated.labelList.length) := by
+  have hneg : r.level + 2 < 0 := by omega
+  unfold handle fullLevel
+  simp only [hneg, if_true, bind, Except.bind]
+
+/-- the least sufficient fuel: the nesting depth of the record's attributes -/
+theorem Text_Handle_exact_depth (P : Std) (addSource : Bool) (h : Handler) (r : Record)
+    (lineNo : Int) (hline : r.line = Glb.Go.Lib.itoa lineNo) (hl : -2 ≤ r.level) :
+    (Glb.Tr.Logger.Text_Handle (depthList r.attrs) P [] addSource h.pre h.groupPrefix r.time r.level
+        r.file lineNo r.msg r.attrs).map (·.1) = handle P addSource h r :=
+  Text_Handle_exact _ P addSource h r lineNo hline (Nat.le_refl _) hl
 
 end Glb.Tie.TrTextHandler
